@@ -1,5 +1,6 @@
 """C02 — Joining a task returns that task's own result once it finishes (structural clauses)."""
 from rules.common import start
+from rules import wave3
 from rules import wave2
 from rules import pool
 
@@ -21,4 +22,6 @@ def run(tier):
     abi.join_abi_rule(run, fx["hook/default"], fx.get("facade/default"), "C02-ABI")
     # clauses added for the wave-2 seeds (rules/wave2.py; DESIGN 12a)
     wave2.wait_no_state_gate_rule(run, f, "C02-NO-STATE-GATE")
+    # clauses added for the wave-2 seeds (rules/wave2.py; DESIGN 12a)
+    wave3.results_deleters_rule(run, f, "C02-RESULTS-DELETERS")
     return run.finish()
